@@ -174,8 +174,11 @@ type sysTarget struct {
 	held map[string]bool
 }
 
-func newSysTarget(linear bool) *sysTarget {
-	s, err := drv.NewSys(drv.SysOpts{Linear: linear, TTL: sys.Forever}, cronner.New(true))
+func newSysTarget(linear bool) *sysTarget { return newSysTargetTTL(linear, sys.Forever) }
+
+// newSysTargetTTL: with sys.Never every request works on a location loaded from storage.
+func newSysTargetTTL(linear bool, ttl time.Duration) *sysTarget {
+	s, err := drv.NewSys(drv.SysOpts{Linear: linear, TTL: ttl}, cronner.New(true))
 	if err != nil {
 		panic(err)
 	}
@@ -352,7 +355,7 @@ type noAnswer struct{ err error }
 
 func (e *noAnswer) Error() string { return "no HTTP answer: " + e.err.Error() }
 
-func (t *httpTarget) cleanup() bool          { return t.sysT.cleanup() }
+func (t *httpTarget) cleanup() bool              { return t.sysT.cleanup() }
 func (t *httpTarget) canary(n int, s bool) error { return t.sysT.canary(n, s) }
 
 // ---------- campaign ----------
@@ -488,8 +491,8 @@ func firstLine(s string) string {
 	return s
 }
 
-func hangKey(c call) string     { return "" }
-func noAnswerKey(c call) string { return "" }
+func hangKey(c call) string            { return "" }
+func noAnswerKey(c call) string        { return "" }
 func panicKey(p string, c call) string { return "" }
 
 // patternizeWhen renames variables inside a rule's `when` only.
@@ -728,15 +731,23 @@ func refusedReplacement(r *rep.Report, via string) {
 		map[string]interface{}{"when": 5.0, "action": map[string]interface{}{"code": "2"}},
 		map[string]interface{}{"when": map[string]interface{}{"pattern": map[string]interface{}{"b": 2.0}}, "action": map[string]interface{}{"code": "2"}, "expires": "yesterday"},
 	}
-	for half := 0; half < 2; half++ {
-		kind := drv.Kinds[half]
+	for half := 0; half < 4; half++ {
+		kind := drv.Kinds[half%2]
+		reloading := half >= 2 // every request works on a location loaded from storage (System only)
+		if reloading && via != "sys" {
+			continue
+		}
 		for bi, doc := range bad {
 			var t target
 			switch via {
 			case "loc":
 				t = newLocTarget(kind)
 			case "sys":
-				t = newSysTarget(kind == "linear")
+				if reloading {
+					t = newSysTargetTTL(kind == "linear", sys.Never)
+				} else {
+					t = newSysTarget(kind == "linear")
+				}
 			default:
 				t = newHTTPTarget(kind == "linear")
 			}
@@ -749,9 +760,9 @@ func refusedReplacement(r *rep.Report, via string) {
 			r.Journal(c)
 			var derr error
 			returned, pan := drv.Guard(callLimit, func() { _, derr = t.do(c) })
-			r.Case(true, fmt.Sprint("refused-replacement", via, kind, bi))
+			r.Case(true, fmt.Sprint("refused-replacement", via, kind, bi, reloading))
 			r.Count("refused_replacements", 1)
-			wit := rep.J{"call": c, "error": drv.ErrStr(derr)}
+			wit := rep.J{"call": c, "error": drv.ErrStr(derr), "location_reloaded_per_request": reloading}
 			if !returned || pan != "" {
 				r.Violate("", "replacing a rule by a malformed one hangs or panics: "+firstLine(pan), wit)
 				return
@@ -760,7 +771,9 @@ func refusedReplacement(r *rep.Report, via string) {
 				continue // accepted: then it IS the rule now
 			}
 			var out string
-			ret2, pan2 := drv.Guard(callLimit, func() { out, _ = t.do(call{Via: via, State: kind, Op: "event", Doc: map[string]interface{}{"old": "rule"}}) })
+			ret2, pan2 := drv.Guard(callLimit, func() {
+				out, _ = t.do(call{Via: via, State: kind, Op: "event", Doc: map[string]interface{}{"old": "rule"}})
+			})
 			wit["event_result"] = out
 			if !ret2 || pan2 != "" {
 				r.Violate("", "after a refused replacement an event for the old rule hangs or panics: "+firstLine(pan2), wit)
